@@ -20,4 +20,18 @@ def jobs():
                     kw["reverse"] = C(True)
                 J.append(Job(f"merge[{n},key={int(keyed)},reverse={int(reverse)}]", ("heapq", "merge"), ("stdlib:heapq", "merge"), n_src(n, kw=kw), props=P,
                              max_paths=20000, opts={"eq_is_incomparable": True, "fresh_ok": False}))
+    for fn in ("nlargest", "nsmallest"):
+        for n in (0, 1, 2, 3):
+            for keyed in (False, True):
+                def mk(ctx, env, n=n, keyed=keyed):
+                    src = env.source("a")
+                    k = env.fn("key") if keyed else None
+                    return dict(iargs=[src, n] + ([k] if keyed else []), rargs=[n, src] + ([k] if keyed else []))
+                o = {"eq_is_incomparable": True}
+                if n >= 2:
+                    # a heap of n >= 2 entries: the unbounded product proof does not converge within the budget;
+                    # bounded stand-in (streams of up to `unroll` pulls, all orderings/ties symbolic), labelled bounded
+                    o.update({"mode": "bounded", "unroll": 4 if n == 2 else 5})
+                J.append(Job(f"{fn}[{'bounded ' if n >= 2 else ''}n={n},key={int(keyed)}]", ("heapq", fn), ("stdlib:heapq", fn), mk, kind="coro",
+                             props=("C02", "C06", "C04", "C18"), max_paths=60000, thorough=(n == 3), faults=(n < 2), opts=o))
     return J
